@@ -3,8 +3,10 @@
   function.  Core Lean only (the compiled driver links this file).
 
   * Pointers become ids: emitters, listeners, signals (pointer-to-member of the emitter
-    class) and slots (pointer-to-member of the listener class) are natural numbers; a
-    destroyed object is `none` in the object table and its id is never reused (fresh memory).
+    class) and slots (pointer-to-member of the listener class) are natural numbers.  An object
+    id denotes one object for ever: a destroyed object is `none` in the object table, a new
+    object (`new Emitter`) is an id never used before, even when the allocator hands out the
+    address of a destroyed object again (the harness does re-create objects, see `Run.prim`).
     The node of `List<Slot>` that holds a connection has an identity of its own (`Slot.node`,
     its address): a fresh number from the allocation counter `nextNode`.  No control flow of
     the model reads `node`; it only lets the theorems speak about "the same connection".
@@ -20,8 +22,9 @@
     reading the slot list of a destroyed emitter, invoking a slot of a destroyed listener.
   * `emit` (Callback.hpp:42-59) together with the slot bodies of the test program is the
     generic evaluator `exec` over a `Machine` (the primitive functions of this file); slot
-    bodies are scripts (`Prog`) indexed by (listener, slot, invocation number).  The
-    evaluator takes fuel; every theorem is for all fuel.
+    bodies are scripts (`Prog`) indexed by (listener, slot, invocation number) whose actions
+    name the harness's variables `em[i]` / `li[i]`.  The evaluator takes fuel; every theorem is
+    for all fuel.
   * A `SignalActivation` constructed while the emitter has no data for the signal is inert
     (`data = 0`: constructor, loop and destructor touch nothing); the model pushes no frame for it.
   * The iterator of the emission loop is an index into the slot list.  (Entries are never
